@@ -31,7 +31,7 @@ type c10cW struct {
 
 func init() {
 	Register(&Scenario{
-		Name: "kv-concurrent-bulk", Prop: "C10", Every: 96, Offset: 16,
+		Name: "kv-concurrent-bulk", Prop: "C10", Every: 96, Offset: 1, // the first case of worker 1, then every 96th seed
 		Gen: func(r *Rng, tier string, seed uint64) interface{} {
 			return &c10cW{Callers: 2 + r.Intn(5), Keys: 1 + r.Intn(30), Rounds: 25}
 		},
